@@ -26,7 +26,7 @@ enum {
   C_STRDUP, C_FREE, C_SIGMASK, C_SIGACTION, C_SIGSET, C_CLOCK, C_EXIT, C_DUP, C_SLEEP, C_NCALLS
 };
 
-#define VK_MAX_TRACE 2048
+#define VK_MAX_TRACE 16384
 #define VK_MAX_EVENTS 4096
 #define VK_MAX_VIOL 8
 #define VK_LOG_SIZE (1 << 17)
